@@ -383,3 +383,16 @@ mod tests {
         assert_eq!(kmeans, deserialized_kmeans);
     }
 }
+
+/// Verification hook: a model holding the given centroids (so that `predict` can be evaluated on an arbitrary model).
+#[cfg(feature = "verif")]
+pub fn verif_kmeans_from_centroids<T: RealNumber>(centroids: Vec<Vec<T>>) -> KMeans<T> {
+    let k = centroids.len();
+    KMeans {
+        k,
+        _y: vec![],
+        size: vec![0; k],
+        _distortion: T::zero(),
+        centroids,
+    }
+}
